@@ -54,8 +54,22 @@ where
         Ok(s)
     }
 
-    pub(crate) fn read_exact(&mut self, buffer: &mut [u8]) -> Result<()> {
-        self.input.read_exact(buffer).map_err(to_ase)
+    /// Read exactly `count` bytes into a new vector. The vector grows with the
+    /// data actually read, so a large declared `count` on a short input does
+    /// not cause a large allocation.
+    pub(crate) fn read_bytes(&mut self, count: usize) -> Result<Vec<u8>> {
+        let mut data = Vec::new();
+        self.input
+            .by_ref()
+            .take(count as u64)
+            .read_to_end(&mut data)
+            .map_err(to_ase)?;
+        if data.len() != count {
+            return Err(to_ase(std::io::Error::from(
+                std::io::ErrorKind::UnexpectedEof,
+            )));
+        }
+        Ok(data)
     }
 
     pub(crate) fn skip_reserved(&mut self, count: usize) -> Result<()> {
